@@ -97,6 +97,15 @@ def run(tier, seed):
         f_, k_, _ = domops.run_batch(ck, "widen%d" % off, hs2[off:off + 300], doms, box=box, univ=univ)
         f2 += f_
         k2 += k_
+    # (2b) the same on large magnitudes (thresholds next to values around +-2^25..2^27)
+    n3 = 100 if tier == "quick" else 1200
+    for off in range(0, n3, 400):
+        hs3 = [hist.large_history(ck.rng, 900000 + off + i, params=ck.rng.choice(c03.PARAMS),
+                                  lat=("widen", "widen", "widenjoin", "widenjoin", "narrow", "join", "copy")) for i in range(min(400, n3 - off))]
+        f_, k_, _ = domops.run_batch(ck, "widenlarge%d" % off, hs3, doms, box=box, univ=univ, timeout=3000)
+        f2 += f_
+        k2 += k_
+    ck.cov["large_magnitude_family"] = {"name": "large_history", "histories": n3}
     domops.report(ck, fails + f2, knowns + k2, box, univ)
     # (3) termination of analysis runs on loop-heavy programs
     np_ = 80 if tier == "quick" else 750
